@@ -67,8 +67,17 @@ func runC19(c map[string]interface{}) []Event {
 			lines = append(lines, ln)
 			net.AddLink(ln, float64(num(l["speed"])))
 		}
-		r, dist, tm, _, _ := net.ShortestRoute(geom.Point{X: float64(num(from[0])), Y: float64(num(from[1]))},
-			geom.Point{X: float64(num(to[0])), Y: float64(num(to[1]))})
+		qf := geom.Point{X: float64(num(from[0])), Y: float64(num(from[1]))}
+		qt := geom.Point{X: float64(num(to[0])), Y: float64(num(to[1]))}
+		if _, ok := c["twin"]; ok {
+			// twin queries: from / to are the positions of two nodes; the query points are placed 2^-40 of the way from
+			// the midpoint towards either node - different points, a hair's breadth apart, with different nearest nodes
+			mid := geom.Point{X: (qf.X + qt.X) / 2, Y: (qf.Y + qt.Y) / 2}
+			eps := math.Ldexp(1, -40)
+			qf, qt = geom.Point{X: mid.X + (qf.X-mid.X)*eps, Y: mid.Y + (qf.Y-mid.Y)*eps}, geom.Point{X: mid.X + (qt.X-mid.X)*eps, Y: mid.Y + (qt.Y-mid.Y)*eps}
+			e["twinapart"] = qf != qt
+		}
+		r, dist, tm, _, _ := net.ShortestRoute(qf, qt)
 		ids := []interface{}{}
 		for _, piece := range r {
 			id := 0
